@@ -40,6 +40,13 @@ def candidates(rng, n):
     cands.append(enum(did, [variant("Lower", ser=["mb"]), variant("Upper", ser=["MB"], aci=1), variant("Other")])); did += 1
     cands.append(enum(did, [variant("Exact", ser=["kb"], aci=0), variant("Any", ser=["Kb"]), variant("Tail", ser=["t"])], aci=True)); did += 1
     cands.append(enum(did, [variant("A", ser=["ab", "Ab"]), variant("B", ser=["AB"], aci=1), variant("C", ser=["aB"], aci=1)])); did += 1
+    # a case-insensitive variant declared BEFORE a case-sensitive one that spells one of its case flips: the earlier arm wins
+    cands.append(enum(did, [variant("Megabit", ser=["mb"], aci=1), variant("Megabyte", ser=["MB"]), variant("Other")])); did += 1
+    cands.append(enum(did, [variant("Other"), variant("Kilo", ser=["Kb"], aci=2), variant("Exact", ser=["KB"], aci=0), variant("Tail", ser=["kb"], aci=0)], aci=True)); did += 1
+    towns = ["\u00d6stringen", "\u0141\u00f3d\u017a", "\u00dcrzig", "Aachen", "Bonn", "Celle", "Dachau", "Essen", "Fulda", "Gera", "Halle", "Ilmenau",
+             "Jena", "Kassel", "Leer", "Mainz", "Neuss", "Olpe", "\u00c5lesund", "\u00e9vry"]
+    cands.append(enum(did, [variant("T%d" % k, ser=[s]) for k, s in enumerate(towns)], aci=True)); did += 1
+    cands.append(enum(did, [variant("T%d" % k, ser=[s], aci=(0 if k == 4 else 2)) for k, s in enumerate(towns)], aci=True)); did += 1
     for st in ("lowercase", "UPPERCASE", "snake_case", "none"):
         for eaci in (False, True):
             cands.append(enum(did, [variant("\u00c5ngstr\u00f6m", aci=2), variant("Cr\u00e8me", aci=1), variant("\u00c9clair", aci=0), variant("Plain")],
